@@ -122,6 +122,9 @@
 (define (iset-adjoin-node! a b)
   (cond
    ((iset-empty? a)
+    ;; drop any empty child nodes, they could overlap the new range
+    (iset-left-set! a #f)
+    (iset-right-set! a #f)
     (iset-start-set! a (iset-start b))
     (iset-end-set! a (iset-end b))
     (iset-bits-set! a (iset-bits b)))
